@@ -8,10 +8,13 @@
 package core
 
 import (
+	"bytes"
+	"compress/gzip"
 	"fmt"
 	"io"
 	"os"
 	"path/filepath"
+	"sync"
 	"sync/atomic"
 
 	"github.com/bitcoin-sv/block-headers-service/config"
@@ -138,6 +141,26 @@ type RigOpts struct {
 	Trace bool
 }
 
+// preparedStub is an existing, well-formed (gzip of a CSV header line) prepared-database file in
+// the process's scratch directory: a start with prepared_db=true on a populated table must not
+// read it, but a configuration check that wants the file to exist is satisfied.
+func preparedStub() string {
+	preparedOnce.Do(func() {
+		var buf bytes.Buffer
+		zw := gzip.NewWriter(&buf)
+		_, _ = zw.Write([]byte("hash,version,merkleroot,nonce,bits,chainwork,timestamp,cumulatedWork\n"))
+		_ = zw.Close()
+		preparedPath = filepath.Join(Scratch(), "verif-prepared.csv.gz")
+		_ = os.WriteFile(preparedPath, buf.Bytes(), 0o644)
+	})
+	return preparedPath
+}
+
+var (
+	preparedOnce sync.Once
+	preparedPath string
+)
+
 // CopyFile copies src to dst.
 func CopyFile(src, dst string) {
 	b, err := os.ReadFile(src)
@@ -169,7 +192,7 @@ func OpenRig(path string, o RigOpts) *Rig {
 	var initErr error
 	if o.ReInit && o.Prepared {
 		cfg.Db.PreparedDb = true
-		cfg.Db.PreparedDbFilePath = "verif-no-such-prepared-file.csv.gz"
+		cfg.Db.PreparedDbFilePath = preparedStub()
 		if db, err = database.Init(cfg, Quiet()); err != nil {
 			initErr = err
 			db, err = sqlx.Open("sqlite3", fmt.Sprintf("file:%s?_foreign_keys=true&pooling=true", path))
